@@ -9,6 +9,9 @@ import Goat.Drv.Codec
 import Goat.Base64
 import Goat.Metadata
 import Goat.Timeout
+import Goat.Protocol
+import Goat.ServerStream
+import Goat.Status
 open Goat Goat.Drv
 
 def showOptBytes : Option Bytes → String
@@ -38,6 +41,73 @@ def showOptMD : Option Metadata.MD → String
   | none => "ERR"
   | some md => showMD md
 
+/-- a shape: flag letters (h header, b body, t trailer, s status, o status-is-OK, r reset, m metadata)
+    then ":" method ":" src ":" dst (hex) -/
+def parseShape (s : String) : Option Protocol.Shape :=
+  match s.splitOn ":" with
+  | [fl, m, a, b] => do
+    let m ← parseHex m; let a ← parseHex a; let b ← parseHex b
+    let has := fun (c : Char) => fl.toList.contains c
+    some { hasHeader := has 'h', hasBody := has 'b', hasTrailer := has 't', hasStatus := has 's',
+           statusOk := has 'o' || !has 's', isReset := has 'r', hasMeta := has 'm', route := (m, a, b) }
+  | _ => none
+
+def showStatus : Status → String
+  | s => s!"{s.code}:{hexOf s.message}:{showList hexOf "," s.details}"
+
+def showEnv (e : Env) : String :=
+  let h := match e.header with
+    | some h => "hdrs=" ++ showKVsGrouped h.headers
+    | none => "nohdr"
+  let b := match e.body with | some b => "body=" ++ hexOf b | none => "nobody"
+  let st := match e.status with | some s => "status=" ++ showStatus s | none => "nostatus"
+  let tr := match e.trailer with | some t => "trailer=" ++ showKVsGrouped t | none => "notrailer"
+  "~".intercalate [h, b, st, tr]
+
+/-- a ServerStream program: ops separated by "/": H<md> S<md>(+|!) M<hex>(+|!) T<md>, then F<code>:<msghex>(+|!) -/
+def parseSSOp (s : String) : Option (Sum ServerStream.Op (Status × Bool)) :=
+  let body := String.ofList (s.toList.drop 1)
+  let ok := body.toList.getLast? = some '+'
+  let arg := String.ofList body.toList.dropLast
+  match s.toList.head? with
+  | some 'H' => (parseMD body).map (fun md => .inl (.setHeader md))
+  | some 'T' => (parseMD body).map (fun md => .inl (.setTrailer md))
+  | some 'S' => (parseMD arg).map (fun md => .inl (.sendHeader md ok))
+  | some 'M' => (parseHex arg).map (fun b => .inl (.sendMsg b ok))
+  | some 'F' => match arg.splitOn ":" with
+    | [c, m] => do let c ← c.toInt?; let m ← parseHex m; some (.inr ({ code := c, message := m }, ok))
+    | _ => none
+  | _ => none
+
+def runSS (items : List (Sum ServerStream.Op (Status × Bool))) : String :=
+  let rec go (s : ServerStream.SS) (acc : List String) : List (Sum ServerStream.Op (Status × Bool)) → List String
+    | [] => acc.reverse
+    | .inl op :: t =>
+      let (s1, e, r) := ServerStream.step s op
+      let line := (match e with | some e => showEnv e | none => "-") ++ (if r == .ok then "^ok" else "^err")
+      go s1 (line :: acc) t
+    | .inr (st, w) :: t =>
+      let (s1, e) := ServerStream.sendTrailer s st w
+      go s1 ((match e with | some e => showEnv e | none => "-") :: acc) t
+  " ".intercalate (go { id := 7 } [] items)
+
+def parseHErr (kind : String) (code : Int) (msg : Bytes) (details : List Bytes) (outer : Bytes) : Option StatusM.HErr :=
+  match kind with
+  | "nil" => some .nil
+  | "status" => some (.status { code := code, message := msg, details := details })
+  | "wrapped" => some (.wrapped { code := code, message := msg, details := details } outer)
+  | "plain" => some (.plain msg)
+  | "canceled" => some .ctxCanceled
+  | "deadline" => some .ctxDeadline
+  | _ => none
+
+def showOutcome : StatusM.Outcome → String
+  | .success _ => "ok"
+  | .eof => "eof"
+  | .error s => "err:" ++ showStatus s
+  | .malformed => "malformed"
+  | .nilDeref => "nilderef"
+
 def evalOp (op input : String) : Option String :=
   match op with
   | "b64enc" => (parseHex input).map (fun b => hexOf (Base64.encode b))
@@ -66,6 +136,30 @@ def evalOp (op input : String) : Option String :=
         let lo ← lo.toInt?; let hi ← hi.toInt?
         some (if lo ≤ (d : Int) ∧ (d : Int) ≤ hi then "in" else s!"out({d})")
       | some d, _ => some s!"out({d})"
+    | _ => none
+  | "accC" => (parseList parseShape ";" input).map (fun l => if Protocol.accC l then "accept" else "reject")
+  | "accS" => match input.splitOn "|" with
+    | [u, l] => (parseList parseShape ";" l).map (fun l => if Protocol.accS (u == "unary") l then "accept" else "reject")
+    | _ => none
+  | "ssrun" => ((input.splitOn "/").mapM parseSSOp).map runSS
+  | "statusrt" => match input.splitOn "|" with
+    | [mode, kind, code, msg, details, outer] => do
+      let code ← code.toInt?; let msg ← parseHex msg; let details ← parseList parseHex "," details
+      let outer ← parseHex outer
+      let e ← parseHErr kind code msg details outer
+      if mode == "unary" then
+        -- a successful handler replies with a body; a failed one with none
+        some (showOutcome (StatusM.clientUnary true (StatusM.serverUnaryStatus e) (if e == .nil then some [] else none)))
+      else
+        some (showOutcome (StatusM.clientStreamTerminal true false (some (StatusM.serverTrailerStatus e))))
+    | _ => none
+  | "foreign" => match input.splitOn "|" with
+    -- replies produced by foreign peers, fed to the real client: mode|hasStatus|code|hasBody|isReset
+    | [mode, hs, code, hb, rst] => do
+      let code ← code.toInt?
+      let st : Option Status := if hs == "1" then some { code := code } else none
+      if mode == "unary" then some (showOutcome (StatusM.clientUnary true st (if hb == "1" then some [] else none)))
+      else some (showOutcome (StatusM.clientStreamTerminal true (rst == "1") st))
     | _ => none
   | _ => none
 
